@@ -572,6 +572,8 @@ def stmt_bounds(body, a, e):
     # forward
     depth = 0
     end = len(body)
+    if body[a:e].rstrip().endswith(';'):
+        return start, e
     for kind, x, y in tokens(body, e):
         if kind != 'punct':
             continue
@@ -1099,6 +1101,12 @@ def assemble(unit, src):
                 check_derives(modnode, it.name, der)
                 out.emit('#[derive(%s)]\n' % ', '.join(der))
             out.emit(pub_fields(it), {'kind': 'type', 'fn': mp + '::' + it.name, 'tags': [], 'text': ''})
+            return
+        if it.kind == 'mod':
+            t = publicize_header(strip_attrs_and_docs_deep(it.src[it.header_start:it.end]))
+            if not t.startswith('pub '):
+                t = 'pub ' + t
+            out.emit(t + '\n', {'kind': 'type', 'fn': mp + '::' + it.name, 'tags': [], 'text': 'module kept verbatim'})
             return
         if it.kind in ('enum', 'type'):
             der = [d for d in (e['opts'].get('derive') or '').split(',') if d]
